@@ -310,11 +310,27 @@ class Path:
         model = s.model() if r == z3.sat else None
         smt2 = None
         backend = "z3"
+        assertions = list(s.assertions()) if r == z3.unknown else None
         if r == z3.unknown:
             smt2 = s.to_smt2()
         s.pop()
         s.set("timeout", BRANCH_TIMEOUT_MS)
         status = "proved" if r == z3.unsat else ("failed" if r == z3.sat else "unknown")
+        if status == "unknown":
+            # robustness ladder: quantifier instantiation is heuristic, so retry the *same* query on fresh solvers with
+            # different seeds, then on cvc5.  Only unsat/sat answers count; unknown stays unknown.
+            for seed in (1, 7, 42):
+                s2 = z3.Solver()
+                s2.set("timeout", PROVE_TIMEOUT_MS)
+                s2.set("random_seed", seed)
+                s2.add(*assertions)
+                r2 = s2.check()
+                if r2 == z3.unsat:
+                    status, backend = "proved", f"z3(fresh solver, seed {seed})"
+                    break
+                if r2 == z3.sat:
+                    status, backend, model = "failed", f"z3(fresh solver, seed {seed})", s2.model()
+                    break
         if status == "unknown" and smt2 is not None:
             r2 = cvc5_check(smt2, PROVE_TIMEOUT_MS / 1000.0)
             if r2 == "unsat":
